@@ -2,6 +2,7 @@
 import hashlib
 import json
 import os
+import subprocess
 import shutil
 import time
 
@@ -225,6 +226,90 @@ def decor_part(prop, tier, seed):
 
 
 PARTS["C20"] = [decor_part]
+
+SCHED_PLANS["C04"] = [("base", 120, 2500), ("pop", 100, 2000), ("queue", 50, 1000), ("delay", 60, 1200), ("none", 40, 800), ("manual", 40, 800)]
+
+
+def term_part(prop, tier, seed):
+    """Screen-level oracle: Term.tla.  Design by TLC; recorded frames (buffer runs and real pty runs) by TLC."""
+    import subprocess
+    from . import term
+    t0 = time.time()
+    wd = core.workdir(prop + "t")
+    try:
+        lines, nviol = [], 0
+        d = term.design(["TermDesign.cfg"] if tier == "quick" else ["TermDesign.cfg", "TermDesign4.cfg"])
+        for r in d:
+            if r["rc"] != 0:
+                raise core.Infra("TermDesign.tla (%s) does not satisfy InPlace: the protocol model no longer matches the repaired code" % r["cfg"])
+        states = sum(r["states"] for r in d)
+        trans = sum(r["transitions"] for r in d)
+        binary = core.build_harness(wd)
+        fams = [("pop", 150, 3000), ("base", 80, 1500), ("queue", 40, 800)] if prop == "C18" else [("base", 100, 2000), ("pop", 100, 2000), ("queue", 40, 800)]
+        scs = gen.batch(seed + 7, [(f, q if tier == "quick" else t) for f, q, t in fams])
+        scen = {s["id"]: s for s in scs}
+        traces = core.run_scenarios(binary, wd, scs)
+        evs = term.term_events(traces, scen)
+        bad, st, tr = term.run_termtrace(evs, wd, "buf")
+        states += st
+        trans += tr
+        # what Obs.tla says about the same executions tells a recorded finding from a new violation
+        obad, st2, tr2, _ = core.run_obs(traces, wd)
+        states += st2
+        trans += tr2
+        f11 = {b["tr"] for b in obad if b["r"] == "popped-not-on-top/priority-changed-before-pop"}
+        # the terminal path on a real pseudo terminal
+        progs = gen.pty_programs(seed, 60 if tier == "quick" else 1200)
+        inp, outp = os.path.join(wd, "pty.in"), os.path.join(wd, "pty.out")
+        with open(inp, "w") as f:
+            for pg in progs:
+                f.write(json.dumps(pg) + "\n")
+        p = subprocess.run([binary, "-test.run", "^TestPty$", "-test.timeout", "0"], env=dict(os.environ, VH_IN=inp, VH_OUT=outp),
+                           capture_output=True, text=True, timeout=3000)
+        pevs = [json.loads(l) for l in open(outp)] if os.path.exists(outp) else []
+        if not pevs or not pevs[-1].get("done"):
+            raise core.Infra("pty driver did not finish: %s %s" % (pevs[-1:] , (p.stdout + p.stderr)[-1500:]))
+        pevs = pevs[:-1]
+        pbad, st3, tr3 = term.run_termtrace(pevs, wd, "pty")
+        states += st3
+        trans += tr3
+        known = 0
+        os.makedirs(os.path.join(core.ROOT, "replays"), exist_ok=True)
+        seen = set()
+        pscen = {pg["id"]: pg for pg in progs}
+        for b in bad + pbad:
+            if b["tr"] in f11:
+                known += 1
+                continue
+            nviol += 1
+            if b["tr"] in seen or len(seen) >= 10:
+                continue
+            seen.add(b["tr"])
+            path = os.path.join(core.ROOT, "replays", "%s-term-%s.json" % (prop, b["tr"]))
+            json.dump({"property": prop, "rule": b["r"], "frame": b["k"], "info": b["info"], "scenario": scen.get(b["tr"]) or pscen.get(b["tr"])}, open(path, "w"))
+            lines.append("VIOLATION property=%s replay=%s rule=%s frame=%s %s" % (prop, path, b["r"], b["k"], b["info"][:160]))
+        if known:
+            f = next(x for x in FINDINGS if x["id"] == "F11")
+            lines.append("KNOWN-FINDING: property=%s F11: %s (%d frames in %d executions; screen rule not-in-place)" % (prop, f["what"][:160], known, len(f11)))
+        cov = {"states": states, "transitions": trans, "traces_validated_against_impl": len({e["tr"] for e in evs}) + len(progs),
+               "samples": [evs[0] if evs else {}, pevs[0] if pevs else {}], "evaluations": len(evs) + len(pevs),
+               "distinct_nontrivial": len({json.dumps([l["s"].split("#")[0] for l in e["lines"]]) + str(e["cuu"]) + str(e["h"]) for e in evs + pevs if e["nrows"] > 0}),
+               "rule": "every frame of gate-scheduled executions on a buffer (interpreted on a tall virtual terminal) and of seeded programs on a real "
+                       "pseudo terminal of height 2..5 with 1..H+1 bars, extender rows, pop mode and text, run through the Term.tla emulator by TLC; "
+                       "distinct = distinct (cursor-up, line layout, height) of frames that draw a bar",
+               "exhaustive": False, "design": d, "pty_programs": len(progs), "frames": len(evs) + len(pevs),
+               "checker_cmd": "tlc TermDesign.tla ; tlc TermTrace.tla ; harness.test TestPty / TestWorker"}
+        lines.append("%s %s term: %d buffer frames, %d pty frames, %d violations, %.1fs" % (prop, tier, len(evs), len(pevs), nviol, time.time() - t0))
+        return {"cov": cov, "lines": lines, "nviol": nviol,
+                "assume": ["xterm semantics for CUU clamping, LF scrolling and ED (Term.tla); the tty layer's \\n -> \\r\\n is undone by the tokeniser",
+                           "columns are not emulated: every line is checked to be narrower than the terminal instead",
+                           "pty frames are delimited by the cursor-up + erase sequence; frames without one merge with their predecessor"]}
+    finally:
+        shutil.rmtree(wd, ignore_errors=True)
+
+
+PARTS["C04"] = [term_part, sched_part]
+PARTS["C18"] = [sched_part, term_part]
 PARTS["C07"] = [fill_part]
 PARTS["C08"] = [fill_part]
 LEVEL = {"C15": "fault_enumeration"}
